@@ -111,6 +111,16 @@ def _idiom_target(ifnode, where, fn=None):
     raise ExtractError("%s: auto-update test guards something other than the force_updated_at() idiom" % where)
 
 
+def _is_unguarded_force(st):
+    """the statement `self.force_updated_at()` (no argument: the clock) standing by itself - NOT under the test of the
+    switch: the object's updated_at is written whatever the switch says"""
+    if not (isinstance(st, ast.Expr) and isinstance(st.value, ast.Call)):
+        return False
+    c = st.value
+    return (isinstance(c.func, ast.Attribute) and c.func.attr == "force_updated_at" and not c.args and not c.keywords
+            and isinstance(c.func.value, ast.Name) and c.func.value.id == "self")
+
+
 def _mentions(node):
     """does the subtree mention the time stamp machinery"""
     for n in ast.walk(node):
@@ -230,6 +240,9 @@ class _Flow:
 
     def __init__(self, cls, fn, lookup):
         self.where = "%s.%s" % (cls, fn.name)
+        # (File.__init__, the create_new class methods and the force methods themselves use the machinery in their
+        # own ways: rendered separately, see scan_creation / _force_canonical)
+        self.plain = (cls, fn.name) not in EXEMPT and fn.name not in CREATORS and fn.name not in FORCE
         self.fn = fn
         self.lookup = lookup
         self.outcomes = set()
@@ -238,9 +251,15 @@ class _Flow:
         self.loop_exits = []
 
     def comb(self, s, t):
+        """touch state s, then t (`always`: this object's updated_at written outside the test of the switch - it
+        absorbs `self`, which writes the same attribute only when the switch is on)"""
         if t == "none":
             return s
-        if s != "none" and s != t:
+        if s == "none":
+            return t
+        if set((s, t)) <= set(("self", "always")):
+            return "always" if "always" in (s, t) else "self"
+        if s != t:
             raise ExtractError("%s: the idiom acts on different objects on one path" % self.where)
         return t
 
@@ -290,6 +309,10 @@ class _Flow:
         if isinstance(st, (ast.FunctionDef, ast.AsyncFunctionDef, ast.ClassDef, ast.Pass, ast.Global, ast.Nonlocal,
                            ast.Import, ast.ImportFrom)):
             return S
+        if self.plain and _is_unguarded_force(st):
+            # `self.force_updated_at()` not under the switch test: recorded as the touch state `always`
+            self.idiom_nodes.add(id(st))
+            return set(self.comb(s, "always") for s in S)
         if isinstance(st, ast.Return):
             S = self.effects(st.value, S)
             for s in S:
@@ -379,7 +402,7 @@ def _analyse_function(cls, fn, lookup):
     for n in _walk_local(fn):
         if isinstance(n, ast.If) and _is_auto_test(n.test) and id(n) not in fl.idiom_nodes:
             raise ExtractError("%s.%s: unreachable auto-update idiom" % (cls, fn.name))
-    order = {"returns": 0, "raises": 1, "none": 0, "self": 1, "parent": 2, "linked": 3}
+    order = {"returns": 0, "raises": 1, "none": 0, "self": 1, "parent": 2, "linked": 3, "always": 4}
     return sorted(fl.outcomes, key=lambda o: (order[o[0]], order[o[1]]))
 
 
@@ -911,8 +934,10 @@ def extract(repo):
     L.append("inductive MKind where | setter | method | forceCreated | forceUpdated")
     L.append("  deriving DecidableEq, Repr")
     L.append("/-- object on which the `if self.file.auto_update_timestamps: X.force_updated_at()` idiom acts (`linked`: the")
-    L.append("data object a `DimensionLink` points to, whose `label` / `unit` the link's setters write) -/")
-    L.append("inductive Touch where | none | self | parent | linked")
+    L.append("data object a `DimensionLink` points to, whose `label` / `unit` the link's setters write); `always`: the path")
+    L.append("runs `self.force_updated_at()` OUTSIDE the test of the switch - this object's `updated_at` is written")
+    L.append("whatever the switch says -/")
+    L.append("inductive Touch where | none | self | parent | linked | always")
     L.append("  deriving DecidableEq, Repr")
     L.append("")
     L.append("/-- how a path through a method ends: `return` / falling off the end, or an exception (an explicit")
